@@ -213,7 +213,9 @@ def run(ctx, rep):
     probed = 0
     try:
         for nm in sorted(safe) + ["__array__", "__call__", "plain_name"]:
-            fo = MIs.call_function(fmm.node, [nm, "<doc>"])
+            ex_mm = {}
+            ex_mm["__global_lookup__"] = K.module_function_lookup(ctx, fmm.module, ex_mm)
+            fo = MIs.call_function(fmm.node, [nm, "<doc>"], ex_mm)
             if not isinstance(fo, MIs.FuncObj):
                 continue
             probed += 1
